@@ -1,6 +1,9 @@
 package props
 
 import (
+	"sync"
+	"strings"
+	"crypto/mlkem"
 	"bytes"
 	"fmt"
 
@@ -187,15 +190,127 @@ func c18Scenarios(thorough bool) []*explore.Scenario {
 	if thorough {
 		n = 256
 	}
-	return []*explore.Scenario{c18Scenario(append(gridClients(n, true), shareListClients(3)...))}
+	return []*explore.Scenario{c18Scenario(append(gridClients(n, true), shareListClients(3)...)), c18ShortReads(gridClients(2, false))}
 }
 
 func init() {
 	register(&Prop{ID: "C18", Level: "exploration", Variant: "A", Scenarios: c18Scenarios,
 		Run: func(c *explore.Check, thorough bool) {
-			c.Rule = "every discovered ID, 4 (256) seeds per randomized kind, custom specs (incl. every ordered key_share list of <=3 distinct groups among the 2 hybrid and 3 classical groups), fingerprinted copies x the server forced (CurvePreferences singleton) to EACH group the hello carries a share for x {directly, after a HelloRetryRequest that carries only a cookie (verif hook): key_share must be re-sent unchanged} x 3 consecutive connections with per-connection scripted entropy: strict per-group share sizes (32/65/97/133/1216), handshake + echo succeeds for every offered share without HRR, negotiated group reported, client random / session id / every key share pairwise distinct across connections. distinct = (client, selected group)"
+			c.Rule = "every discovered ID, 4 (256) seeds per randomized kind, custom specs (incl. every ordered key_share list of <=3 distinct groups among the 2 hybrid and 3 classical groups), fingerprinted copies x the server forced (CurvePreferences singleton) to EACH group the hello carries a share for x {directly, after a HelloRetryRequest that carries only a cookie (verif hook): key_share must be re-sent unchanged} x 3 consecutive connections with per-connection scripted entropy: strict per-group share sizes (32/65/97/133/1216), handshake + echo succeeds for every offered share without HRR, negotiated group reported, client random / session id / every key share pairwise distinct across connections; every client: the same deterministic Config.Rand stream delivered in whole reads and one byte per Read gives the same client random, session id and GREASE values, and no ML-KEM key derived from a mostly-zero seed. distinct = (client, selected group)"
 			c.Assumptions = []string{"freshness is decided as non-repetition under different per-connection Config.Rand streams", "QUIC's empty legacy session id is checked by C23"}
 			runAll(c, c18Scenarios(thorough), 0)
 			c.Gate(c.Total.Counters["non_first_share_selected"] > 10, "non-vacuity: non-first share selected %d times", c.Total.Counters["non_first_share_selected"])
 		}})
+}
+
+// oneByteReader hands out its source one byte per Read call: legal for an io.Reader, and what a
+// caller-supplied Config.Rand may do.
+type oneByteReader struct{ r interface{ Read([]byte) (int, error) } }
+
+func (o oneByteReader) Read(p []byte) (int, error) {
+	if len(p) == 0 {
+		return 0, nil
+	}
+	return o.r.Read(p[:1])
+}
+
+// c18ShortReads — every random field of the hello (client random, session id, GREASE seed, key
+// shares incl. the ML-KEM half) is drawn from Config.Rand. A deterministic byte stream is delivered
+// once in whole reads and once one byte per Read: the fields drawn before the first key generation must be the
+// same (a field filled by a single short Read would be mostly zeros / constants instead).
+func c18ShortReads(clients []gridClient) *explore.Scenario { return shortReadsScenario("C18", clients) }
+
+func shortReadsScenario(prop string, clients []gridClient) *explore.Scenario {
+	return &explore.Scenario{
+		Name: "config-rand-delivering-one-byte-per-read",
+		Run: func(x *explore.X) (r explore.Result) {
+			g := clients[x.Choose("client", len(clients))]
+			if isGolang(g.ID) {
+				r.Obs = "golang-excluded" // crypto/tls draws through its own helpers
+				return
+			}
+			var hellos [2][]byte
+			for i := 0; i < 2; i++ {
+				cfg := g.config("example.com")
+				sr := newScriptRand("c18-short-" + g.Name)
+				if i == 0 {
+					cfg.Rand = sr
+				} else {
+					cfg.Rand = oneByteReader{sr}
+				}
+				stream, _, perr, pm := firstFlight(cfg, g.ID, g.prepare())
+				if pm != "" {
+					r.Violate(prop+"|short-reads|panic", "%s: %s", g.Name, truncStr(pm, 300))
+					return
+				}
+				msg, _, err := wire.FirstFlightHello(stream)
+				if err != nil {
+					r.Obs = "no-hello:" + errClass(perr)
+					return
+				}
+				hellos[i] = msg
+			}
+			r.Nontrivial = true
+			r.Class = g.Name
+			h0, e0 := wire.ParseClientHello(hellos[0])
+			h1, e1 := wire.ParseClientHello(hellos[1])
+			if e0 != nil || e1 != nil {
+				r.Obs = "unparsable"
+				return
+			}
+			// compared: everything drawn BEFORE the first key generation (Go's key generators consume
+			// a random extra byte on purpose, so the stream position after them is not a function of
+			// the source): client random, legacy session id, the GREASE words
+			var diff []string
+			if !bytes.Equal(h0.Random, h1.Random) {
+				diff = append(diff, "client random")
+			}
+			if !bytes.Equal(h0.SessionID, h1.SessionID) {
+				diff = append(diff, fmt.Sprintf("session id (%x vs %x)", h0.SessionID, h1.SessionID))
+			}
+			g0, _ := greaseValues(h0)
+			g1, _ := greaseValues(h1)
+			if fmt.Sprint(g0.suites, g0.groups, g0.exts, g0.versions) != fmt.Sprint(g1.suites, g1.groups, g1.exts, g1.versions) {
+				diff = append(diff, fmt.Sprintf("GREASE values (%v vs %v)", g0, g1))
+			}
+			if len(diff) > 0 {
+				r.Violate(prop+"|short-reads|hello-depends-on-read-sizes", "%s: the same entropy stream delivered one byte per Read gives a different ClientHello: %s", g.Name, strings.Join(diff, "; "))
+			}
+			// the ML-KEM half of a hybrid share comes from a 64-byte seed drawn after a key generation:
+			// not comparable, but a seed filled by one short Read leaves at most its first byte random —
+			// the encapsulation key is then one of 256 computable values
+			if ks := h1.Find(51); ks != nil {
+				if shares, err := wire.ParseKeyShares(ks.Body); err == nil {
+					for _, sh := range shares {
+						if sh.Group == 4588 && len(sh.Data) == 1216 && lowEntropyMLKEM()[string(sh.Data[:1184])] {
+							r.Violate(prop+"|short-reads|mlkem-seed-mostly-zero", "%s: with a Config.Rand that returns one byte per Read the ML-KEM key of the hybrid share is derived from a seed of which 63 bytes are zero", g.Name)
+						}
+					}
+				}
+			}
+			r.Count("short_read_pairs", 1)
+			r.Obs = fmt.Sprintf("diffs=%d", len(diff))
+			return
+		},
+	}
+}
+
+var (
+	lowMLKEMOnce sync.Once
+	lowMLKEM     map[string]bool
+)
+
+// lowEntropyMLKEM: the encapsulation keys of the 256 ML-KEM-768 seeds whose bytes 1..63 are zero.
+func lowEntropyMLKEM() map[string]bool {
+	lowMLKEMOnce.Do(func() {
+		lowMLKEM = map[string]bool{}
+		for b := 0; b < 256; b++ {
+			seed := make([]byte, 64)
+			seed[0] = byte(b)
+			if k, err := mlkem.NewDecapsulationKey768(seed); err == nil {
+				lowMLKEM[string(k.EncapsulationKey().Bytes())] = true
+			}
+		}
+	})
+	return lowMLKEM
 }
